@@ -186,6 +186,7 @@ class Gen:
         self.r, self.tier = rng, tier
         self.feat = set()
         self.p_compound = 0.0
+        self.dim = 2
 
     def R(self, x, allow_avg=True):
         r = self.r
@@ -208,13 +209,21 @@ class Gen:
         return op(s, x)
 
     def inner_coef(self, coeffn):
-        """a factor that may stand INSIDE a restriction next to the argument: constant, coefficient field, its square"""
+        """a factor that may stand INSIDE a restriction next to the argument: coordinate, free coefficient field (it is
+        then restricted to the side of the argument), its square, constant, number"""
         r = self.r
         c = r.random()
         if coeffn and c < 0.5:
             self.feat.add("coef-field")
+            self.feat.add("R(field*..)")
             return fn(coeffn) if r.random() < 0.7 else {"k": "pow", "b": fn(coeffn), "e": 2}
-        if c < 0.8:
+        if c < 0.65:
+            self.feat.add("R(coord*..)")
+            x = {"k": "coord", "i": r.randrange(self.dim)}
+            if r.random() < 0.25:
+                x = mul(x, {"k": "coord", "i": r.randrange(self.dim)})
+            return x
+        if c < 0.85:
             return {"k": "const", "name": r.choice(["kappa", "beta"])}
         return gnum(r.choice([2, 3, -1]), r.choice([1, 2]))
 
@@ -367,6 +376,7 @@ class Gen:
 def gen_case(rng, tier, idx):
     g = Gen(rng, tier)
     dim = rng.choice([2, 2, 2, 3])
+    g.dim = dim
     npatch = rng.choice([2, 2, 3])
     mapped = tier == "thorough" and rng.random() < 0.35
     conn = []
@@ -397,7 +407,7 @@ def gen_case(rng, tier, idx):
         if form == "bilinear":
             trials = ["u"]
             funcs["u"] = {"vec": rng.random() < 0.35}
-    if rng.random() < 0.2:
+    if rng.random() < 0.25:
         funcs["f"] = {"vec": False}
     case = {"dim": dim, "npatch": npatch, "mapped": mapped, "conn": conn, "form": form, "funcs": funcs,
             "trials": trials, "tests": tests, "terms": [], "volume": "mass" if rng.random() < 0.2 else None,
